@@ -285,7 +285,9 @@ pub fn gen(ctx: &Ctx) {
                 // (a slow request has no body: an unread body followed at once by the next request is finding F20c, property C07)
                 let body: Vec<u8> = if rng.chance(1, 2) || kind == 9 { vec![] } else { (0..rng.range(1, 50)).map(|_| b'a' + rng.below(26) as u8).collect() };
                 let mut fields: Vec<(String, Vec<u8>)> = Vec::new();
-                let wire = if body.is_empty() { vec![] } else if rng.chance(1, 2) { fields.push(("Content-Length".into(), body.len().to_string().into_bytes())); body.clone() }
+                // (a handler that answers before it reads a CHUNKED body can still be reading when the next request arrives on a
+                // loaded machine: finding F20c, property C07 - /first gets fixed-length bodies here)
+                let wire = if body.is_empty() { vec![] } else if kind == 4 || rng.chance(1, 2) { fields.push(("Content-Length".into(), body.len().to_string().into_bytes())); body.clone() }
                            else { fields.push(("Transfer-Encoding".into(), b"chunked".to_vec())); crate::s_body::encode_chunked(&mut rng, &body) };
                 // 9: a slow handler (answers, then lingers 25 ms): what the client does next reaches the server while the request is in flight
                 // (a streamed body above 8 KiB without a declared length goes out chunked through the 128 KiB stack buffer of the
